@@ -50,6 +50,8 @@ struct World {
     last_msg: BTreeMap<usize, String>,
     sess_ids: Vec<String>,
     sess_seq: Vec<u64>,
+    /// ids of the frames the last successful call said it appended (the id the API returned)
+    returned: Vec<String>,
 }
 
 fn data_dir(root: &Path) -> PathBuf {
@@ -72,7 +74,7 @@ impl World {
         let log = Arc::new(EventLog::new(truth_path(root)).expect("event log"));
         let store = ContinuityStore::new(data_dir(root), ws_dir(root), log.clone()).expect("store");
         let n = sess_ids.len();
-        World { root: root.to_path_buf(), log, store, threads, last_msg, sess_ids, sess_seq: vec![0; n] }
+        World { root: root.to_path_buf(), log, store, threads, last_msg, sess_ids, sess_seq: vec![0; n], returned: vec![] }
     }
     fn tid(&self, t: usize) -> String {
         self.threads.get(t).cloned().unwrap_or_else(|| NO_THREAD.to_string())
@@ -85,6 +87,7 @@ impl World {
     }
     /// Runs one operation on the real store; Ok(()) iff the capability returned Ok.
     fn exec(&mut self, op: &Op) -> Result<(), String> {
+        self.returned.clear();
         match op {
             Op::Ensure => {
                 let id = self.store.ensure_default()?;
@@ -110,16 +113,17 @@ impl World {
                     "x".repeat(len.saturating_sub(base) as usize)
                 };
                 let mid = self.store.append_message(&tid, "user".into(), "rv".into(), content)?;
+                self.returned.push(mid.clone());
                 self.last_msg.insert(*t, mid);
                 Ok(())
             }
             Op::RunSpawned { t } => {
                 let (tid, mid) = self.link(*t);
-                self.store.append_run_spawned(&tid, &mid, "sess-run", "user".into(), "rv".into()).map(|_| ())
+                self.store.append_run_spawned(&tid, &mid, "sess-run", "user".into(), "rv".into()).map(|id| self.returned.push(id))
             }
             Op::RunEnded { t } => {
                 let (tid, mid) = self.link(*t);
-                self.store.append_run_ended(&tid, &mid, "sess-run", "done".into(), "user".into(), "rv".into()).map(|_| ())
+                self.store.append_run_ended(&tid, &mid, "sess-run", "done".into(), "user".into(), "rv".into()).map(|id| self.returned.push(id))
             }
             Op::Cursor { t } => {
                 let tid = self.tid(*t);
@@ -186,6 +190,7 @@ impl World {
                     ev.kind = EventKind::OutputTextDelta { delta: "y".repeat(len.saturating_sub(base) as usize) };
                 }
                 self.log.append(&ev).map_err(|e| e.to_string())?;
+                self.returned.push(ev.id.clone());
                 self.sess_seq[*s] += 1;
                 Ok(())
             }
@@ -607,6 +612,11 @@ fn run_workload(ops: &[Op], scratch: &Path, wl_json: serde_json::Value, with_mod
         }
         if r.is_ok() {
             acked.extend(frames.iter().map(|b| b.id.clone()));
+            for id in &w.returned {
+                if !acked.contains(id) {
+                    acked.push(id.clone());
+                }
+            }
         }
     }
     CrashRec::uninstall();
@@ -703,6 +713,11 @@ fn analyse(
         }
         if r.is_ok() {
             acked2.extend(frames.iter().filter(|b| b.ok).map(|b| b.id.clone()));
+            for id in &w2.returned {
+                if !acked2.contains(id) {
+                    acked2.push(id.clone());
+                }
+            }
             // numbering continues: the new frame's seq is the number of earlier frames of its stream
             let all: Vec<Body> = read_bodies(&truth_path(root)).into_iter().flatten().collect();
             for b in frames.iter().filter(|b| b.ok) {
@@ -862,6 +877,22 @@ fn corpus_workloads() -> Vec<Vec<Op>> {
     }
     out
 }
+/// every kind of operation, deterministic (oracle only): artifact-before-frame, children, crash inside rebuild_best_effort
+fn rich_workload() -> Vec<Op> {
+    vec![
+        Op::Ensure,
+        Op::Msg { t: 0, len: 0 },
+        Op::Msg { t: 0, len: 8192 },
+        Op::Checkpoint { t: 0 },
+        Op::Branch { t: 0 },
+        Op::Msg { t: 1, len: 0 },
+        Op::Handoff { t: 0 },
+        Op::DropSideRead { t: 0 },
+        Op::Msg { t: 0, len: 0 },
+        Op::Checkpoint { t: 0 },
+        Op::Msg { t: 2, len: 300 },
+    ]
+}
 fn gen_workload(r: &mut Rng, n: usize, rich: bool) -> Vec<Op> {
     let mut ops = vec![Op::Ensure];
     let mut nthreads = 1usize;
@@ -909,6 +940,7 @@ fn main() {
     let mut workloads: Vec<(Vec<Op>, bool)> = corpus_workloads().into_iter().map(|w| (w, true)).collect();
     workloads.push((thin_workload(), true));
     workloads.push((boundary_workload(), true));
+    workloads.push((rich_workload(), false));
     let mut r = Rng::new(a.seed);
     let (n_model, n_rich) = if a.thorough() { (24, 16) } else { (3, 2) };
     for _ in 0..n_model {
